@@ -6,6 +6,7 @@ CONSTANTS
   MaxAppRollback = 2
   MaxTamper = 2
   InitialHeight = 1
+  Discard = FALSE
   Weak_EndHeightBeforeSaveBlock = FALSE
   Weak_SaveStateBeforeAppCommit = FALSE
   Weak_NoABCIResponsesSaved = FALSE
@@ -17,6 +18,8 @@ CONSTANTS
   Weak_HandshakeAcceptsAppAhead = TRUE
   Weak_EmptyStoreAcceptsAppAhead = FALSE
   Weak_NoInitialHeightBase = FALSE
+  Weak_ReplayDropsParamUpdates = FALSE
+  Weak_CrashCopyDropsValUpdates = FALSE
 INIT Init
 NEXT Next
 INVARIANTS JournalWellFormed
